@@ -32,8 +32,23 @@ def producer_script(stage, n_items, n_workers):
     return script, rec
 
 
-def worker_table(stage):
-    return mpmodel.infer_worker(stage.call_worker, make_item=getattr(stage, "make_item", None))
+def worker_table(stage, sample_message=None):
+    mk = getattr(stage, "make_item", None)
+    if mk is None and sample_message is not None:
+        # probe the real worker with a message the REAL producer enqueued (the wire format is the code's business)
+        mk = lambda k, hook: sample_message
+    return mpmodel.infer_worker(stage.call_worker, make_item=mk)
+
+
+def items_of_messages(stage, msgs):
+    """Work items the enqueued messages stand for: what the REAL worker calls back for each message. Stages whose items
+    carry their own hook (fake images) are keyed directly."""
+    if getattr(stage, "make_item", None) is not None:
+        return [stage.item_key(m) for m in msgs]
+    out = []
+    for m in msgs:
+        out += [stage.item_key(a) for a in mpmodel.worker_callbacks_for(stage.call_worker, m)]
+    return out
 
 
 def schedule_of(trace):
@@ -161,20 +176,25 @@ def check_stage(run, stage, n_items, n_workers, tier):
     name = "%s[I=%d,W=%d]" % (stage.name, n_items, n_workers)
     t0 = time.time()
     script, rec = producer_script(stage, n_items, n_workers)
-    table = worker_table(stage)
     puts = [op for op in script if op[0] == "put"]
     # item set = serial item set
     serial = []
     stage.run_serial(n_items, lambda k: serial.append(k))
-    par_items = [stage.item_key(op[2]) for op in puts]
+    par_items = items_of_messages(stage, [op[2] for op in puts])
     if sorted(map(repr, par_items)) != sorted(map(repr, serial)) or len(set(map(repr, par_items))) != len(par_items):
         run.violation("%s.items-equal-serial" % name, "%s:item-set-differs-from-serial" % stage.name,
                       "%s enqueues %r but serial mode processes %r" % (stage.name, par_items, serial),
-                      "# the producer's enqueued items differ from the serial item set\nprint(%r)\nprint(%r)\nraise SystemExit(1)\n" % (par_items, serial), "E3:extraction")
+                      ("# the items the real parallel producer enqueues (expanded by the real worker) vs the items the real serial path processes\nimport sys\nsys.path.insert(0, %r)\n"
+                       "import props.C03 as P\nfrom props.stages import STAGES\nst = [s for s in STAGES if s.name == %r][0]\n"
+                       "script, rec = P.producer_script(st, %d, %d)\npar = P.items_of_messages(st, [op[2] for op in script if op[0] == 'put'])\nserial = []\nst.run_serial(%d, lambda k: serial.append(k))\n"
+                       "print('parallel:', par)\nprint('serial:  ', serial)\nsys.exit(1 if sorted(map(repr, par)) != sorted(map(repr, serial)) else 0)\n")
+                      % (str(__import__("vlib.core").core.VERIF), stage.name, n_items, n_workers, n_items), "E3:extraction")
     else:
-        run.ob("%s.items-equal-serial" % name, "confirmed", "E3:extraction", "parallel producer enqueues exactly the %d serial items, once each" % len(serial))
+        run.ob("%s.items-equal-serial" % name, "confirmed", "E3:extraction", "parallel producer enqueues exactly the %d serial items, once each (%d message(s), expanded by the real worker)" % (len(serial), len(puts)))
     if len(puts) != n_items:
-        raise HarnessError("%s: expected %d items, script has %d" % (stage.name, n_items, len(puts)))
+        run.ob("%s.model" % name, "inconclusive", "E3:extraction", "the producer enqueues %d message(s) for %d item(s): a message is not one item, which the schedule model does not cover" % (len(puts), n_items))
+        return
+    table = worker_table(stage, puts[0][2] if puts else None)
     ts = mpmodel.stage_ts(script, table, n_workers)
     K = ts.max_steps
     U = bmc.Unrolled(ts, K)
